@@ -77,6 +77,24 @@ def explore(chk):
                 row, t = plain_row(rng, rng.choice([1, 8, 15]), n)
                 caps.append([row]); alltexts.append([t])
             cases.append((popon_text(caps, doubled=bool(k % 2)), alltexts, "pop-long-programme"))
+    # two captions sent on two lines that carry the same time code (the first is replaced in the frame it came up in): whether
+    # the error is raised depends on the row lengths only -- long row first or last, all three modes
+    same_sub = chk.sub("same_time_code_lines")
+    for mode_ in ("pop", "paint", "roll"):
+        for long_first in (True, False, None):
+            n_long = same_sub.choice([33, 34, 40]); n_short = same_sub.choice([5, 20, 32])
+            ta = "".join(same_sub.choice(sccgen.SAFE_CHARS[:62]) for _ in range(n_long if long_first else n_short))
+            tb = "".join(same_sub.choice(sccgen.SAFE_CHARS[:62]) for _ in range(n_short if long_first in (True, None) else n_long))
+            def line_(tx):
+                if mode_ == "pop":
+                    body = [sccgen.CMD["RCL"], sccgen.CMD["ENM"], sccgen.pac(15)] + sccgen.chars_to_words(tx)
+                    return " ".join(body + ["8080"] * (40 - len(body)) + [sccgen.CMD["EOC"]])
+                if mode_ == "paint":
+                    return " ".join([sccgen.CMD["RDC"], sccgen.pac(15)] + sccgen.chars_to_words(tx))
+                return " ".join([sccgen.CMD["RU2"], sccgen.CMD["CR"], sccgen.pac(15)] + sccgen.chars_to_words(tx))
+            tc = sccgen.timecode(60, False)
+            text_ = "\n".join(["Scenarist_SCC V1.0", "", tc + "\t" + line_(ta), "", tc + "\t" + line_(tb), "", sccgen.timecode(400, False) + "\t" + sccgen.CMD["EDM"], ""]) + "\n"
+            cases.append((text_, [[ta], [tb]], mode_ + "-same-time-code"))
     N = 300 if chk.tier == "quick" else 8000
     for i in range(N):
         mode = rng.choice(["pop", "pop", "roll", "paint"])
